@@ -356,8 +356,58 @@ func concMain(args []string) {
 			}(d, reads)
 		}
 	}
+	// the same sweep on the context-based runner: the action returns by itself within microseconds of the deadline,
+	// so the select may take the action's result while the context has already expired (or the other way round)
+	var ctxStuck, ctxRuns, ctxOdd int32
+	ctxTimeout := time.Millisecond
+	fine := 3 * time.Microsecond
+	if o.Thorough() {
+		fine = time.Microsecond
+	}
+	for d := -100 * time.Microsecond; d <= 300*time.Microsecond; d += fine {
+		for _, fail := range []bool{false, true} {
+			rwg.Add(1)
+			sem <- struct{}{}
+			go func(d time.Duration, fail bool) {
+				defer rwg.Done()
+				defer func() { <-sem }()
+				action := func(actx context.Context) error {
+					t := time.NewTimer(ctxTimeout + d)
+					defer t.Stop()
+					<-t.C // ignores its context: it ends on its own, around the deadline
+					if fail {
+						return errAction
+					}
+					return nil
+				}
+				done := make(chan error, 1)
+				go func() {
+					done <- parallelisation.RunActionWithTimeoutAndContext(context.Background(), ctxTimeout, action)
+				}()
+				atomic.AddInt32(&ctxRuns, 1)
+				select {
+				case err := <-done:
+					if err != nil && !errors.Is(err, errAction) && !commonerrors.Any(err, commonerrors.ErrTimeout) {
+						atomic.AddInt32(&ctxOdd, 1)
+					}
+				case <-time.After(time.Second):
+					atomic.AddInt32(&ctxStuck, 1)
+				}
+			}(d, fail)
+		}
+	}
 	rwg.Wait()
 	close(stopBusy)
+	rep.Evaluations += int(ctxRuns)
+	rep.HistN("race-sweep:context-runner:runs", int(ctxRuns))
+	rep.HistN("race-sweep:context-runner:stuck", int(ctxStuck))
+	if ctxStuck > 0 {
+		rep.Fail(hx.Failure{Kind: "impl-violates-property", Key: "context-runner-never-returns-when-the-action-ends-at-the-deadline", Case: fmt.Sprintf("race sweep: %d of %d runs of RunActionWithTimeoutAndContext never returned (action ending within -100..+300 µs of a 1 ms deadline)", ctxStuck, ctxRuns),
+			Expected: "every run returns", Observed: fmt.Sprintf("%d stuck for more than a second", ctxStuck)})
+	}
+	if ctxOdd > 0 {
+		rep.Fail(hx.Failure{Kind: "impl-violates-property", Key: "context-runner:kind-at-the-deadline", Case: "race sweep on RunActionWithTimeoutAndContext", Expected: "the action's own result or 'timeout'", Observed: fmt.Sprintf("%d runs answered with another kind", ctxOdd)})
+	}
 	rep.Evaluations += int(raceRuns)
 	rep.HistN("race-sweep:runs", int(raceRuns))
 	rep.HistN("race-sweep:stuck", int(raceStuck))
